@@ -29,6 +29,7 @@ def step (st : St) (line : String) : St × String :=
     | some n => ({ st with arenaLimit := n }, "ok")
     | none => (st, "bad-op")
   | "cfg" :: _ => (st, "ok")
+  | "O" :: _ => (st, "ok")      -- oracle-only lines (deep trees): executed by the implementation against BTreeMap and the structural oracles
   | "F" :: _ => (st, "ok")      -- fault-mode lines: executed by the implementation only (C05 oracle), never compared
   | "P" :: ws => let r := pyStep st.py ws; ({ st with py := r.1 }, r.2)
   | "C" :: ws => let r := cStep st.c ws; ({ st with c := r.1 }, r.2)
